@@ -198,6 +198,8 @@ namespace internal
 			size_t initCount = array.GetCount();
 			MOMO_CHECK(index <= initCount);
 			MOMO_ASSERT(array.GetCapacity() >= initCount + count);
+			if (count == 0)
+				return;
 			MemManager& memManager = array.GetMemManager();
 			if (index + count < initCount)
 			{
@@ -228,6 +230,8 @@ namespace internal
 			size_t initCount = array.GetCount();
 			MOMO_CHECK(index <= initCount);
 			MOMO_ASSERT(array.GetCapacity() >= initCount + count);
+			if (count == 0)
+				return;
 			MemManager& memManager = array.GetMemManager();
 			if (index + count < initCount)
 			{
@@ -274,6 +278,8 @@ namespace internal
 		{
 			size_t initCount = array.GetCount();
 			MOMO_CHECK(index + count <= initCount);
+			if (count == 0)
+				return;
 			MemManager& memManager = array.GetMemManager();
 			for (size_t i = index + count; i < initCount; ++i)
 				ItemTraits::Assign(memManager, std::move(array[i]), array[i - count]);
